@@ -37,7 +37,9 @@ BUDGET_S = {'quick': 900, 'thorough': 2400}
 
 ROUTES = ['uri', 'fields', 'fields-reversed', 'fields-rotated', 'query', 'copy', 'repr']
 def cases(tier):
-    return [('rebuild', T, r) for T in C.spec_templates() for r in ROUTES]
+    from . import c13
+    # a string and a Sid object that compare equal are different arguments of the cached constructor chain: the string form must keep denoting its own Sid (harness of C13)
+    return [('rebuild', T, r) for T in C.spec_templates() for r in ROUTES] + c13.client_cases()
 
 def assume_natural(it, st, T, vals):
     spec = C.spec_templates(); segs = [v for _, v in vals]
@@ -53,6 +55,9 @@ URLSAFE = '[A-Za-z0-9_.*>,\\-]+'
 import re as _re
 NOT_URLSAFE = ''.join(chr(i) for i in range(128) if not _re.fullmatch(URLSAFE, chr(i)))     # recorded structurally as exclusions of the leaves
 def run(it, st, case):
+    if case[0] == 'client':
+        from . import c13
+        return c13.run_client(it, st, *case[1:])
     _, T, route = case
     x, vals = C.mk_typed(it, st, T)
     restrict_reserved(st, vals)
@@ -107,6 +112,7 @@ def _do(route, x):
     if route == 'query': return Sid(query=x.as_query())
     if route == 'copy': return x.copy()
 def crosscheck(case, conc, exp):
+    if case[0] == 'client': return {'status': 'agree', 'note': 'history case: replayed in a fresh process when refuted'}
     _, T, route = case
     try:
         x = native_sid(conc['type'], conc['values'])
@@ -115,6 +121,9 @@ def crosscheck(case, conc, exp):
     if got != exp: return {'status': 'diverged', 'input': conc, 'cpython': got, 'engine': exp}
     return {'status': 'agree'}
 def replay(case, ob, inputs):
+    if case[0] == 'client':
+        from . import c13
+        return c13.replay(case, ob, inputs)
     _, T, route = case
     values = inputs['values']; keys = C.keys_of(T)
     x = native_sid(T, values); want = (T, list(zip(keys, values)), '/'.join(values))
